@@ -35,6 +35,7 @@ KEYWORD_LIST = [
     "volatile",
     "protected",
     "asynchronous",
+    "bind",
 ]
 KEYWORD_ID_DICT = {keyword: ind for (ind, keyword) in enumerate(KEYWORD_LIST)}
 
